@@ -90,7 +90,7 @@ theorem enumV_inv {env : Env} {η : Hp} {en : String} {i : Nat} {vs : List Val} 
 
 theorem stepME {env : Env} {file : AFile} {G : List String} {P : Prog} {F : GFile} (hl : Link env file G P F) {n : Nat}
     (ha : SimA env file G P F n) (hme : SimME env file G P F n) : SimME env file G P F (n + 1) := by
-  intro m st arms d ty η Γ K ρ w gρ gw Bad x en i vs gv hfa hfd hrel hkrel hw hlk hty hgv hinv htgt hus hcal
+  intro m st arms d ty η Γ K ρ w gρ gw Bad x en i vs gv hfa hfd hrel hkrel hw hlk hty hgv hinv htgt hus hfc hcal
   -- the scrutinee's variant and its Go struct
   have hty0 := hty
   have hgv0 := hgv
@@ -109,7 +109,7 @@ theorem stepME {env : Env} {file : AFile} {G : List String} {P : Prog} {F : GFil
       obtain ⟨hfe, hte⟩ := hfd
       have hte' := scalarEq_eq hte
       simp only [compileArms, compileDflt, armDecls, optDecls, List.nil_append] at hinv
-      have hA := ha m st e η Γ K ρ w gρ gw Bad hfe hrel hkrel hw hinv (hte' ▸ htgt) hus
+      have hA := ha m st e η Γ K ρ w gρ gw Bad hfe hrel hkrel hw hinv (hte' ▸ htgt) hus hfc
         (fun c hc => hcal c (by simp [calleesArms, calleesD, hc]))
       rw [hte'] at hA
       exact conclSw_of_concl hA (fun r0 hn => tsw_nil_some hn)
@@ -150,7 +150,7 @@ theorem stepME {env : Env} {file : AFile} {G : List String} {P : Prog} {F : GFil
         simp only [beq_self_eq_true, if_true]
         rw [hvi] at hvar; injection hvar with hvar; injection hvar with h1 h2; subst h1; subst h2
         have hk' : KRel ((x, idx) :: K) ρ := hkrel.know hlk
-        have hA := ha m st body η Γ ((x, idx) :: K) ρ w gρ gw Bad hfb hrel hk' hw (hSb ▸ hinvb) (htb' ▸ htgt) hus
+        have hA := ha m st body η Γ ((x, idx) :: K) ρ w gρ gw Bad hfb hrel hk' hw (hSb ▸ hinvb) (htb' ▸ htgt) hus hfc
           (fun c hc => hcal c (by simp [calleesArms, hc]))
         rw [hSb, htb'] at hA
         refine conclSw_of_concl hA (fun r0 hn => tsw_cons_hit ?_ hn)
@@ -158,7 +158,7 @@ theorem stepME {env : Env} {file : AFile} {G : List String} {P : Prog} {F : GFil
       · have hne : (idx == i) = false := by simpa using hidx
         simp only [hne, Bool.false_eq_true, if_false]
         have hR := hme m rb.2 rest d ty η Γ K ρ w gρ gw Bad x en i vs _ hfr hfd hrel hkrel hw hlk
-          hty0 hgv0 hinvr htgt hus
+          hty0 hgv0 hinvr htgt hus hfc
           (fun c hc => hcal c (by
             simp only [calleesArms, List.mem_append] at hc ⊢
             rcases hc with hc | hc
@@ -203,7 +203,7 @@ theorem caseLabel_lit {env : Env} {p : Prim} {sty : Ty} (hs : switchTy sty = tru
 
 theorem stepMV {env : Env} {file : AFile} {G : List String} {P : Prog} {F : GFile} (hl : Link env file G P F) {n : Nat}
     (ha : SimA env file G P F n) (hmv : SimMV env file G P F n) : SimMV env file G P F (n + 1) := by
-  intro m st arms d ty sty η Γ K ρ w gρ gw Bad v gv hsw hfa hfd hrel hkrel hw hty hgv hinv htgt hus hcal
+  intro m st arms d ty sty η Γ K ρ w gρ gw Bad v gv hsw hfa hfd hrel hkrel hw hty hgv hinv htgt hus hfc hcal
   cases arms with
   | nil =>
     simp only [armsToExpr, compileArms, valueCases]
@@ -216,7 +216,7 @@ theorem stepMV {env : Env} {file : AFile} {G : List String} {P : Prog} {F : GFil
       obtain ⟨hfe, hte⟩ := hfd
       have hte' := scalarEq_eq hte
       simp only [compileArms, compileDflt, armDecls, optDecls, List.nil_append] at hinv
-      have hA := ha m st e η Γ K ρ w gρ gw Bad hfe hrel hkrel hw hinv (hte' ▸ htgt) hus
+      have hA := ha m st e η Γ K ρ w gρ gw Bad hfe hrel hkrel hw hinv (hte' ▸ htgt) hus hfc
         (fun c hc => hcal c (by simp [calleesArms, calleesD, hc]))
       rw [hte'] at hA
       exact conclSw_of_concl hA (fun r0 hn => sw_nil_some hn)
@@ -246,21 +246,21 @@ theorem stepMV {env : Env} {file : AFile} {G : List String} {P : Prog} {F : GFil
         simp only [armDecls, List.append_assoc]
         exact List.sublist_append_right _ _
       -- the label evaluates to the Go image of the literal
-      have hlit : immOK env Γ (.prim p pty) = true := hp
-      obtain ⟨lv, glv, hsl, hgl, h3l, h4l⟩ := imm_both P hl.ty hlit hrel
+      have hlit : immOK env file G Γ (.prim p pty) = true := hp
+      obtain ⟨lv, glv, hsl, hgl, h3l, h4l⟩ := imm_both P hl.ty hlit hrel (hfc.rel hinv.goodK)
       have hlv : lv = Sem.primVal p := by
         have := hsl 0 w; simp only [Imm.toExpr] at this; rw [Sem.eval] at this; injection this with this; exact this.symm
       subst hlv
       have heq := valEq_toGV h4l hty (switchTy_scalar hsw) h3l hgv
       by_cases hhit : (Sem.valEq (Sem.primVal p) v).getD false = true
       · simp only [hhit, if_true]
-        have hA := ha m st body η Γ K ρ w gρ gw Bad hfb hrel hkrel hw (hSb ▸ hinvb) (htb' ▸ htgt) hus
+        have hA := ha m st body η Γ K ρ w gρ gw Bad hfb hrel hkrel hw (hSb ▸ hinvb) (htb' ▸ htgt) hus hfc
           (fun c hc => hcal c (by simp [calleesArms, hc]))
         rw [hSb, htb'] at hA
         exact conclSw_of_concl hA (fun r0 hn => sw_cons_hit (hgl gw) (by rw [heq]; exact hhit) hn)
       · have hmiss : (Sem.valEq (Sem.primVal p) v).getD false = false := by simpa using hhit
         simp only [hmiss, Bool.false_eq_true, if_false]
-        have hR := hmv m rb.2 rest d ty pty η Γ K ρ w gρ gw Bad v gv hsw hfr hfd hrel hkrel hw hty hgv hinvr htgt hus
+        have hR := hmv m rb.2 rest d ty pty η Γ K ρ w gρ gw Bad v gv hsw hfr hfd hrel hkrel hw hty hgv hinvr htgt hus hfc
           (fun c hc => hcal c (by
             simp only [calleesArms, List.mem_append] at hc ⊢
             rcases hc with hc | hc
@@ -272,7 +272,7 @@ theorem stepMV {env : Env} {file : AFile} {G : List String} {P : Prog} {F : GFil
 
 theorem stepMU {env : Env} {file : AFile} {G : List String} {P : Prog} {F : GFile} {n : Nat}
     (ha : SimA env file G P F n) : SimMU env file G P F (n + 1) := by
-  intro m st arms d ty η Γ K ρ w gρ gw Bad hfrag hrel hkrel hw hinv htgt hus hcal
+  intro m st arms d ty η Γ K ρ w gρ gw Bad hfrag hrel hkrel hw hinv htgt hus hfc hcal
   cases arms with
   | nil =>
     simp only [fragUnit, List.isEmpty_nil, if_true, Bool.and_eq_true] at hfrag
@@ -286,7 +286,7 @@ theorem stepMU {env : Env} {file : AFile} {G : List String} {P : Prog} {F : GFil
       simp only [fragD, Bool.and_eq_true] at hfrag
       obtain ⟨_, hfe, hte⟩ := hfrag
       have hte' := scalarEq_eq hte
-      have hA := ha m st e η Γ K ρ w gρ gw Bad hfe hrel hkrel hw hinv (hte' ▸ htgt) hus
+      have hA := ha m st e η Γ K ρ w gρ gw Bad hfe hrel hkrel hw hinv (hte' ▸ htgt) hus hfc
         (fun c hc => hcal c (by simp [calleesArms, calleesD, hc]))
       rw [hte'] at hA
       exact hA
@@ -306,7 +306,7 @@ theorem stepMU {env : Env} {file : AFile} {G : List String} {P : Prog} {F : GFil
     rw [Sem.evalArms.eq_def]; simp only
     have hm : Sem.armMatches (.prim .unit) .unit = true := rfl
     simp only [hm, if_true]
-    have hA := ha m st body η Γ K ρ w gρ gw Bad hfb hrel hkrel hw hinv (htb' ▸ htgt) hus
+    have hA := ha m st body η Γ K ρ w gρ gw Bad hfb hrel hkrel hw hinv (htb' ▸ htgt) hus hfc
       (fun c hc => hcal c (by simp [calleesArms, hc]))
     rw [htb'] at hA
     exact hA
